@@ -642,6 +642,33 @@ func genHistory(r *rng, tier string) interface{} {
 			ctxs[i].Env = []string{"OTHER=1", "VERIF_X=outer"}
 		}
 	}
+	if r.chance(12) {
+		// captured-parameter probe: a modifier whose parameter lives in the closure is invoked with
+		// Contexts of very different shape in turn (few / many args, short / long value); an
+		// invocation must not adjust the captured parameter for the next one
+		inner := &xExpr{K: "echo"}
+		var probe *xExpr
+		switch r.intn(4) {
+		case 0, 1:
+			probe = &xExpr{K: "shift", N: 2 + r.intn(2), E: inner}
+		case 2:
+			probe = &xExpr{K: "multiPartsN", S: pick(r, []string{"/", ":"}), N: 2 + r.intn(2), E: inner}
+		default:
+			probe = &xExpr{K: "pfx", S: "pre-", E: &xExpr{K: "shift", N: 1 + r.intn(3), E: inner}}
+		}
+		in.Table = append(in.Table, probe)
+		small := xCtx{Value: pick(r, []string{"", "a"}), Args: []string{"one"}[:r.intn(2)]}
+		big := xCtx{Value: pick(r, []string{"a/b/c/d", "x:y:z:w", "pre-a/b"}), Args: []string{"one", "two", "three", "four", "five"}[:3+r.intn(3)]}
+		in.Steps = nil
+		for i := 0; i < 4+r.intn(3); i++ {
+			c := small
+			if i%2 == 1 {
+				c = big
+			}
+			in.Steps = append(in.Steps, historyStep{E: len(in.Table) - 1, Ctx: c})
+		}
+		return in
+	}
 	steps := 2 + r.intn(5)
 	for i := 0; i < steps; i++ {
 		in.Steps = append(in.Steps, historyStep{E: r.intn(n), Ctx: pick(r, ctxs)})
@@ -715,8 +742,9 @@ func genBatchRace(r *rng, tier string) interface{} {
 	ref := func() *xExpr { return &xExpr{K: "ref", ID: 0} }
 	members := []*xExpr{}
 	n := 2 + r.intn(4)
-	if r.chance(20) {
-		for i := 0; i < 3+r.intn(6); i++ {
+	if r.chance(35) {
+		// several members that register completions for commands nobody has seen yet
+		for i := 0; i < 4+r.intn(12); i++ {
 			members = append(members, &xExpr{K: "gen"})
 		}
 	}
